@@ -168,7 +168,9 @@ func (ni *NodeInfo) NonAllocatedResource(resourceType v1.ResourceName) float64 {
 func (ni *NodeInfo) IsTaskAllocatable(task *pod_info.PodInfo) bool {
 	if isBestEffortJob := task.ResReq.IsEmpty() &&
 		(len(task.GetAllStorageClaims()) == 0) && !task.IsMemoryRequest(); isBestEffortJob {
-		return true
+		// A best-effort pod still takes one pod slot of the node, and it must be an idle one:
+		// a slot held by a terminating pod can only be nominated.
+		return ni.Idle.Get(v1.ResourcePods) >= 1
 	}
 
 	if allocatable := ni.isTaskAllocatableOnNonAllocatedResources(task, ni.Idle); !allocatable {
